@@ -10,7 +10,8 @@ model's set (changed + newly reachable), all under ONE transaction id.
 
 Steps: modify, add implicitly (by reachability) / explicitly (conn.add), remove, commit, abort, failed
 commit at phase {commit (conflict injected through a second connection), vote (storage.tpc_vote raises),
-finish (storage.tpc_finish raises before doing anything)}, add() with joining refused, close (must be
+finish (storage.tpc_finish raises before doing anything), pickle (an object of the transaction is
+unpicklable after the pickler has met a brand-new child of it)}, add() with joining refused, close (must be
 refused inside a transaction) and reopen from the pool.
 
 Bound: 9 fixed programs + 60 (thorough: 600) random programs of <= 12 steps over <= 6 objects, on
@@ -351,6 +352,33 @@ def do_commit(w):
 def failed_commit(w, phase):
     """make the commit fail in the given phase; the model stays at the last committed state"""
     st = w.conn._normal_storage
+    if phase == 'pickle':
+        # an object of the transaction cannot be pickled - AFTER the pickler has met a brand-new child of
+        # it (which has been given an oid by then): the commit fails in the middle of storing
+        holders = sorted(n for n in w.pend['touched'] if n in w.pend['state'] and n in w.objs
+                         and w.objs[n]._p_jar is not None)
+        if not holders:
+            return 'skip'
+        holder = w.objs[holders[0]]
+        child = KINDS[len(w.objs) % 3](len(w.objs) + 1)
+        cname = 'p%d' % (len(w.objs) + 1)
+        w.objs[cname] = child
+        w.last_state[cname] = (child.v, [])
+        holder.add_kid(child)
+        holder.__dict__['_unpicklable'] = lambda: 1
+        holder._p_changed = True
+        try:
+            try:
+                w.tm.commit()
+                return 'commit succeeded although an object could not be pickled'
+            except Exception:
+                pass
+        finally:
+            holder.__dict__.pop('_unpicklable', None)
+        w.tm.abort()
+        w.last_state[holders[0]] = (w.last_state[holders[0]][0], w.last_state[holders[0]][1] + [cname])
+        w.begin()
+        return None
     if phase == 'commit':
         # a conflicting change through another connection on some touched committed object
         victims = sorted(n for n in w.pend['touched'] if n in w.committed)[::-1]
@@ -488,6 +516,8 @@ FIXED = [
     [('new', 'a', 'root', False), ('commit',), ('add-refused',), ('modify', 'a'), ('commit',)],
     [('new', 'a', 'root', False), ('new', 'b', 'root', False), ('commit',), ('modify', 'a'),
      ('new', 'c', 'a', False), ('modify', 'b'), ('fail', 'commit'), ('link', 'root', 'c'), ('commit',)],
+    [('new', 'a', 'root', False), ('commit',), ('modify', 'a'), ('fail', 'pickle'), ('modify', 'a'), ('commit',)],
+    [('new', 'a', 'root', False), ('fail', 'pickle'), ('link', 'root', 'a'), ('commit',)],
     [('new', 'a', 'root', False), ('commit',), ('unlink', 'root', 'a'), ('commit',), ('modify', 'a'),
      ('commit',), ('reopen',), ('new', 'z', 'root', True), ('commit',)],
 ]
@@ -513,7 +543,7 @@ def random_program(rnd):
         elif k < 0.83:
             prog.append(('abort',))
         elif k < 0.93:
-            prog.append(('fail', rnd.choice(['commit', 'vote', 'finish'])))
+            prog.append(('fail', rnd.choice(['commit', 'vote', 'finish', 'pickle'])))
         elif k < 0.97:
             prog.append(('close-inside',))
         else:
